@@ -9,6 +9,7 @@ import (
 	"io"
 	"os"
 	"os/exec"
+	"sort"
 	"strings"
 	"syscall"
 	"time"
@@ -277,8 +278,34 @@ func Probes(r *Released) []c01.Step {
 
 // feed adds the releases of a run to the history oracle and reports the first slashable release.
 func feed(w *vkit.World, h *vkit.History, run *ChildRun, phase string) *vkit.Violation {
-	for i := range run.Released {
-		r := &run.Released[i]
+	// Requests of one wave ran concurrently: the order of their RELEASED lines is not the order in
+	// which Dirk processed them.  Slashability between attestations is symmetric, but "proposal slots
+	// strictly increase" depends on the order, so the proposals of a wave are taken in the order most
+	// favourable to Dirk (ascending slot); two proposals at one slot still collide.
+	rel := append([]Released(nil), run.Released...)
+	for i := 0; i < len(rel); {
+		j := i + 1
+		for rel[i].Wave > 0 && j < len(rel) && rel[j].Wave == rel[i].Wave {
+			j++
+		}
+		if j-i > 1 {
+			var at []int
+			var props []Released
+			for k := i; k < j; k++ {
+				if rel[k].Prop != nil {
+					at = append(at, k)
+					props = append(props, rel[k])
+				}
+			}
+			sort.SliceStable(props, func(a, b int) bool { return props[a].Prop.Slot < props[b].Prop.Slot })
+			for n, k := range at {
+				rel[k] = props[n]
+			}
+		}
+		i = j
+	}
+	for i := range rel {
+		r := &rel[i]
 		key := keyHex(w, r.Key)
 		if r.Att != nil {
 			if why, bad := h.AddAtt(key, r.Att); bad {
